@@ -82,6 +82,14 @@ def histories(stack, rnd):
     pushable = all(api_pushable(v) for v in stack)
     if pushable:
         yield "api", [], tuple(stack)
+        # the same values at other positions (given to the init functions, or through zw_value_clone)
+        st = []
+        for v in stack:
+            w = v.with_pos(rnd.randint(1, 6))
+            if w.t in ("c", "s") and rnd.random() < 0.5:
+                w.via_clone = True
+            st.append(w)
+        yield "api-pos", [], tuple(st)
     yield "literals", lits, ()
     # junk pushed and dropped in between
     junk = [("lit", 99, "dec"), ("str", [b"junk"], False), ("elist",)]
@@ -287,7 +295,7 @@ def main(tier, seed):
                                "?match is an unanchored POSIX-ERE search (tests.sh pins this against the docstring); only regexes in the subset common to POSIX and Python are judged",
                                "order across types / unrelated domains is not judged here (C09)",
                                "exhaustive=true: every (word, operand tuple) over the pool is enumerated; fillers and histories are sampled per tuple"],
-                  health={"all histories used": all(ev.labels.get("history:" + h, 0) > 0 for h in ("api", "literals", "junk-drop", "deep-junk", "swap", "rot", "mixed")),
+                  health={"all histories used": all(ev.labels.get("history:" + h, 0) > 0 for h in ("api", "api-pos", "literals", "junk-drop", "deep-junk", "swap", "rot", "mixed")),
                           "soft errors agreed": ev.labels.get("soft-error-agreed", 0) > 50,
                           "renumbering exercised": ev.labels.get("stream:renumbered", 0) > 200})
 
